@@ -113,7 +113,7 @@ def programs(ctx, n_exhaustive, n_random, private=False):
     imp = scopegen.import_programs()
     par = scopegen.parameter_programs()
     priv = scopegen.private_name_programs() if private else []      # name mangling is a C03 matter (known finding F30)
-    return decl + imp + par + priv + sib + short + ex + rnd
+    return decl + imp + par + priv + scopegen.export_programs() + sib + short + ex + rnd
 
 
 def check_alpha(ctx, ident, src, oname, extra, prop_filter=None):
